@@ -48,12 +48,51 @@ def strat_calib(draw, tier):
     true = float(f"{lo + draw(st.floats(0.05, 0.95)) * (min(hi, lo + 10 * (spec['params'][name] + 0.1)) - lo):.6g}")
     return {"model": spec, "param": name, "interval": [lo, hi], "true": true, "T": draw(_f(0.1, 3.0)),
             "product": draw(st.sampled_from(["call", "put", "forward"])), "moneyness": draw(_f(0.8, 1.25)),
-            "bs_sigma": draw(_f(0.05, 0.6)), "mode": draw(st.sampled_from(["generic", "default-atm"]))}
+            "bs_sigma": draw(_f(0.05, 0.6)), "mode": draw(st.sampled_from(["generic", "default-atm"])),
+            "recalibrate": draw(st.sampled_from([None, 0.0, 3e-6, -5e-6, 1e-3, 0.2]))}
 
 
 def _snapshot(model):
     p = model.levy_model.parameters
     return copy.deepcopy(p.__dict__), float(model.omega), float(model.levy_triplet.a)
+
+
+def _differs_from_direct(fam, got, direct, u_values=(0.7, -1.3, 2.1 + 0.2j)):
+    """first difference between a model and one constructed directly with the same parameter values, or None"""
+    pr, pd_ = got.levy_model.parameters.__dict__, direct.levy_model.parameters.__dict__
+    for k_ in pd_:
+        a, b = pr.get(k_), pd_[k_]
+        try:  # (fields may be scalars or arrays)
+            same = a is not None and np.shape(a) == np.shape(b) and bool(np.allclose(np.asarray(a, dtype=float),
+                                                                                      np.asarray(b, dtype=float),
+                                                                                      rtol=1e-13, atol=0, equal_nan=True))
+        except (TypeError, ValueError):
+            same = a == b
+        if not same:
+            return f"cached-field-out-of-sync/{k_}", f"{k_}={a!r}, direct construction {b!r}"
+    for u in u_values:
+        a, b = complex(got.levy_model.levy_exponent(u)), complex(direct.levy_model.levy_exponent(u))
+        if not (abs(a - b) <= 1e-12 * (1 + abs(b)) or (a != a and b != b)):
+            return "exponent-out-of-sync", f"u={u}: {a} vs {b}"
+    nu_r, nu_d = got.levy_triplet.nu, direct.levy_triplet.nu
+    for (x, y) in ((0.05, 0.8), (-0.9, -0.03)):
+        a, b = float(nu_r.integrate(x, y)), float(nu_d.integrate(x, y))
+        if not (abs(a - b) <= 1e-12 * (1 + abs(b)) or (a != a and b != b)):
+            return "measure-out-of-sync", f"mass[{x},{y}]: {a} vs {b}"
+        a, b = float(nu_r.integrate_against_xx(x, y)), float(nu_d.integrate_against_xx(x, y))
+        if not (abs(a - b) <= 1e-12 * (1 + abs(b)) or (a != a and b != b)):
+            return "measure-out-of-sync", f"second moment on [{x},{y}]: {a} vs {b}"
+    for x in (0.11, -0.07):
+        a, b = float(nu_r(x)), float(nu_d(x))
+        if not (abs(a - b) <= 1e-12 * (1 + abs(b)) or (a != a and b != b)):
+            return "measure-out-of-sync", f"density at {x}: {a} vs {b}"
+    a, b = float(got.omega), float(direct.omega)
+    if not (abs(a - b) <= 1e-12 * (1 + abs(b)) or (a != a and b != b)):
+        return "omega-out-of-sync", f"{a} vs {b}"
+    a, b = got.process_drift(), direct.process_drift()
+    if not np.allclose(a, b, rtol=1e-12, atol=1e-14, equal_nan=True):
+        return "process-drift-out-of-sync", f"{a} vs {b}"
+    return None
 
 
 def body_calib(case):
@@ -93,13 +132,35 @@ def body_calib(case):
                 out.append(Violation(f"C20/default-calibration/{fam}/parameter-outside-the-interval", f"{name}={v}; {detail}"))
             # the calibrated model behaves as one constructed directly with the final values
             direct = build_model({"family": fam, "params": dict(spec["params"], **{name: float(v)}), "exp": spec["exp"]})
-            for u in (0.7, -1.3, 2.1 + 0.2j):
-                if abs(complex(cal.levy_model.levy_exponent(u)) - complex(direct.levy_model.levy_exponent(u))) > 1e-12 * (1 + abs(complex(direct.levy_model.levy_exponent(u)))):
-                    out.append(Violation(f"C20/default-calibration/{fam}/calibrated-model-differs-from-direct-construction",
-                                         f"levy_exponent({u}); {detail}"))
-                    break
-            if abs(float(cal.omega) - float(direct.omega)) > 1e-12 * (1 + abs(direct.omega)):
-                out.append(Violation(f"C20/default-calibration/{fam}/omega-out-of-sync", f"{cal.omega} vs {direct.omega}; {detail}"))
+            bad = _differs_from_direct(fam, cal, direct)
+            if bad:
+                out.append(Violation(f"C20/default-calibration/{fam}/calibrated-model-differs-from-direct-construction/{bad[0]}",
+                                     f"{bad[1]}; {detail}"))
+            # the calibrated model is itself calibrated again (same or slightly / clearly moved volatility): same contract
+            bump = case.get("recalibrate")
+            if bump is not None and not out:
+                sig2 = case["bs_sigma"] * (1.0 + bump)
+                snap = _snapshot(cal)
+                try:
+                    cal2 = run_default_calibration(cal, maturity=T, bs_sigma=sig2)
+                except ValueError:
+                    cal2 = None
+                if cal2 is not None:
+                    bs2 = build_model({"family": "bs", "params": {"sigma": sig2}, "exp": spec["exp"]})
+                    target2 = float(CFBlackScholes(bs2).call(strike=spot, maturity=T))
+                    got2 = float(np.asarray(COSPricer(cal2).call(np.array([spot]), T)).ravel()[0])
+                    if abs(got2 - target2) > 1e-8 * spot:
+                        out.append(Violation(f"C20/default-calibration/{fam}/recalibrated/atm-call-differs-from-black-scholes",
+                                             f"volatility moved by {bump:g} (relative): ATM call {got2!r} vs Black-Scholes "
+                                             f"{target2!r}; {detail}"))
+                    if repr(_snapshot(cal)) != repr(snap):
+                        out.append(Violation(f"C20/default-calibration/{fam}/recalibrated/input-model-modified", detail))
+                    v2 = getattr(cal2.levy_model.parameters, name)
+                    direct2 = build_model({"family": fam, "params": dict(spec["params"], **{name: float(v2)}), "exp": spec["exp"]})
+                    bad = _differs_from_direct(fam, cal2, direct2)
+                    if bad:
+                        out.append(Violation(f"C20/default-calibration/{fam}/recalibrated/differs-from-direct-construction/{bad[0]}",
+                                             f"{bad[1]}; {detail}"))
     else:
         name = case["param"]
         true_spec = {"family": fam, "params": dict(spec["params"], **{name: case["true"]}), "exp": spec["exp"]}
